@@ -1,6 +1,7 @@
 package c14
 
 import (
+	"math"
 	"bufio"
 	"bytes"
 	"fmt"
@@ -114,6 +115,7 @@ func runRLK(c *eng.Ctx, cf cfg) {
 		}) {
 			continue
 		}
+		e.checkEphemeral(P, eph)
 		mkOps := func(round string, shares []rshare, degree int) *ops[rshare] {
 			blobs := make([][]byte, e.np)
 			ok := c.Try("C14|RelinearizationKeyGenShare.MarshalBinary", func() {
@@ -333,5 +335,77 @@ func runRLK(c *eng.Ctx, cf cfg) {
 				}
 			}
 		}
+	}
+}
+
+// checkEphemeral: the round-one ephemeral secrets u_i are samples of the parameters' secret distribution
+// (multiparty/utils.go models the key noise with var(u) = var(sk); the term (u - s)*e1 of the key error
+// scales with the l2 norm of u). Exact for a fixed Hamming weight, 6 standard errors on the pooled
+// density otherwise; a Gaussian Xs is judged on its support and, with >= 128 coefficients, on a
+// pooled variance above a quarter of the nominal one.
+func (e *env) checkEphemeral(P string, eph []*rlwe.SecretKey) {
+	params := e.params
+	rq := params.RingQ().AtLevel(0)
+	q0 := rq.SubRings[0].Modulus
+	sig := "C14|" + P + ".GenShareRoundOne|ephemeral-secret-not-a-sample-of-Xs"
+	var n, nonzero int
+	var sum2 float64
+	for i, u := range eph {
+		if u == nil {
+			continue
+		}
+		p := rq.NewPoly()
+		copy(p.Coeffs[0], u.Value.Q.Coeffs[0])
+		rq.IMForm(p, p)
+		rq.INTT(p, p)
+		w, maxAbs := 0, uint64(0)
+		for _, v := range p.Coeffs[0] {
+			v %= q0
+			a := v
+			if v > q0/2 {
+				a = q0 - v
+			}
+			if a != 0 {
+				w++
+			}
+			if a > maxAbs {
+				maxAbs = a
+			}
+			sum2 += float64(a) * float64(a)
+		}
+		n += len(p.Coeffs[0])
+		nonzero += w
+		e.c.Count("ephemeral_secrets_judged", 1)
+		switch e.cf.Xs {
+		case "h8", "hN":
+			want := 8
+			if e.cf.Xs == "hN" || want > e.n {
+				want = e.n
+			}
+			e.c.Check(maxAbs <= 1 && w == want, sig+"|hamming-weight", func() string {
+				return fmt.Sprintf("party %d: weight %d (max |u| = %d), Xs has fixed Hamming weight %d; %s", i, w, maxAbs, want, e.chain)
+			})
+		case "gauss":
+			e.c.Check(maxAbs <= 19, sig+"|outside-support", func() string { return fmt.Sprintf("party %d: max |u| = %d > 19; %s", i, maxAbs, e.chain) })
+		default:
+			e.c.Check(maxAbs <= 1, sig+"|outside-support", func() string { return fmt.Sprintf("party %d: max |u| = %d > 1; %s", i, maxAbs, e.chain) })
+		}
+	}
+	if n == 0 {
+		return
+	}
+	switch e.cf.Xs {
+	case "h8", "hN":
+	case "gauss":
+		if n >= 128 {
+			e.c.Check(sum2/float64(n) >= 3.2*3.2/4, sig+"|variance", func() string {
+				return fmt.Sprintf("pooled variance %.2f over %d coefficients, nominal %.2f; %s", sum2/float64(n), n, 3.2*3.2, e.chain)
+			})
+		}
+	default: // Ternary{P: 0.5}
+		d := math.Abs(float64(nonzero) - 0.5*float64(n))
+		e.c.Check(d <= 6*math.Sqrt(0.25*float64(n)), sig+"|density", func() string {
+			return fmt.Sprintf("%d non-zero coefficients of %d, density 1/2 expected (6 standard errors = %.1f); %s", nonzero, n, 6*math.Sqrt(0.25*float64(n)), e.chain)
+		})
 	}
 }
